@@ -3,6 +3,7 @@
 From Coq Require Import List String Bool Arith.
 From Sdfx Require Import Sys.Lockset Generated.Effects Sys.EffectsC10.
 Import ListNotations.
+Local Open Scope string_scope.
 
 (* The lockset discipline is sound for the interleaving semantics: if no two accesses of
    different threads conflict with disjoint lock sets, then under EVERY schedule no state is
